@@ -63,22 +63,23 @@ def _stream_pair(job):
     return out
 
 
+def check_witness(data, show=False):
+    w = data["witness"]
+    if data.get("kind") == "entry":
+        n, s = w["n"], w["s"]
+        cnt, bad = _table((max(n, s + 1), n, n))
+        return [(("planner", "table-entry-differs"), w, "entry (n=%d,s=%d): tabulated %s, memoised %s" % (bn, bs, t, m), "entry")
+                for (bn, bs, t, m) in bad if (bn, bs) == (n, s)]
+    out = _stream_pair((w["n"], w["s"], w["storage"]))
+    return [(("Mixed", pred), cfg, detail, "config") for pred, cfg, detail in out["viol"]]
+
+
 def run(prop, args):
     rep = R.Report(prop, args, RULE)
     if args.replay:
-        data = R.load_replay(args.replay)
-        w = data["witness"]
         rep.evaluations = 1
-        if data.get("kind") == "entry":
-            n, s = w["n"], w["s"]
-            cnt, bad = _table((max(n, s + 1), n, n))
-            for (bn, bs, t, m) in bad:
-                if (bn, bs) == (n, s):
-                    rep.add_violation(("planner", "table-entry-differs"), w, "entry (n=%d,s=%d): tabulated %s, memoised %s" % (bn, bs, t, m), kind="entry")
-            return rep.finish()
-        out = _stream_pair((w["n"], w["s"], w["storage"]))
-        for pred, cfg, detail in out["viol"]:
-            rep.add_violation(("Mixed", pred), cfg, detail)
+        for b, w, d, k in check_witness(R.load_replay(args.replay)):
+            rep.add_violation(b, w, d, kind=k)
         return rep.finish()
     tier = args.tier
     N = 60 if tier == "quick" else 160
@@ -114,6 +115,7 @@ def run(prop, args):
                             "stream_digest": out.get("digest"), "first_actions": out.get("head")})
         for pred, cfg, detail in out["viol"]:
             rep.add_violation(("Mixed", pred), cfg, detail)
+    R.run_regress(rep, check_witness)
     if not rep.samples:
         rep.sample({"call": "MixedCheckpointSchedule(%d,%d,storage=%s) on both planner paths" % tuple(res[-1]["job"]), "stream_digest": res[-1].get("digest")})
     rep.assumptions = ["numba is not installable offline: the compiled artefact (int64 overflow, typing) is not exercised; the tabulated algorithm is compared as CPython+NumPy runs it",
